@@ -651,7 +651,7 @@ impl NumPeaksSpec {
     pub fn num_peaks(&self, composition: &ChemicalComposition) -> i32 {
         match self {
             Self::Guess => guess_npeaks(composition, 300),
-            Self::FixedCount(i) => (*i - 1).max(0),
+            Self::FixedCount(i) => i.saturating_sub(1).max(0),
             Self::PercentSignal(val) => {
                 (poisson_approximate_n_peaks_of(composition.mass(), *val as f64) as i32 - 1).max(0)
             }
